@@ -1676,8 +1676,8 @@ Error query_features(Arch arch, const BaseInst& inst, const Operand_* operands, 
 
     // Handle PCLMULQDQ vs VPCLMULQDQ.
     if (out->has(Ext::kVPCLMULQDQ)) {
-      if (reg_analysis.has_reg_type(RegType::kVec512) || Support::test(options, InstOptions::kX86_Evex)) {
-        // AVX512_F & VPCLMULQDQ.
+      if (reg_analysis.has_reg_type(RegType::kVec512) || Support::test(options, InstOptions::kX86_Evex) || reg_analysis.high_vec_used) {
+        // AVX512_F & VPCLMULQDQ (a register id above 15 forces the EVEX encoding for every vector length).
         out->remove(Ext::kAVX, Ext::kPCLMULQDQ);
       }
       else if (reg_analysis.has_reg_type(RegType::kVec256)) {
